@@ -88,6 +88,11 @@ def _c10(run, drv, rng, tier):
     props_c10.check(run, drv, rng, tier)
 
 
+def _c09(run, drv, rng, tier):
+    from . import props_c09
+    props_c09.check(run, drv, rng, tier)
+
+
 def _c15(run, drv, rng, tier):
     from . import props_c15
     props_c15.check(run, drv, rng, tier)
@@ -374,6 +379,19 @@ PROPS = {
                 "variants; one violating statement inserted at a random boundary of a random file (57 kinds); positions of all "
                 "definitions and references in-process; -c exit status; see tools/props_c20.NOTES.md; distinct by case tuple",
         "assumptions": FRONT_ASSUME + ["snake_case (regular-expression cascade) is not modelled: the field-name rule is tied by correspondence only"],
+    },
+    "C09": {
+        "modules": ["BpModel.Props.C09"],
+        "theorems": ["Bp.C09.C09_string_literal_total", "Bp.C09.C09_expr_parser_fuel", "Bp.C09.C09_tokenizer_fuel", "Bp.C09.C09_eval_classified",
+                     "Bp.C09.C09_import_fuel"],
+        "explore": _c09,
+        "correspondence": "exception class escaping parse() / render_string() and wall clock per input (worker pool under an interval timer); real CLI exit "
+                          "status and stderr on a sample; t_STRING_LITERAL vs Lexer.lexString and constant expressions vs Expr.evalText (native driver)",
+        "rule": "bases = /repo's own .bitproto files + generated multi-file programs (tools/gen.py, tools/front.py); streams: character mutations, token "
+                "mutations, random token sequences, truncations, stress inputs (depth, length), every accepted input x {c, c -O, go, go -O, py}; "
+                "distinct by (stream, outcome class, error kind, render outcomes)",
+        "assumptions": ["PLY's LALR engine and grammar tables and the renderers as a whole are not modelled: their totality is explored by the streams, not proved (partial)",
+                        "a hang is a parse or render that exceeds 20 s of wall clock in a worker process"],
     },
     "C15": {
         "modules": ["BpModel.Props.C15"],
